@@ -33,8 +33,9 @@ func main() {
 		raceBin := fs.String("racebin", "", "")
 		workers := fs.Int("workers", 0, "")
 		replay := fs.String("replay", "", "")
+		alt := fs.Bool("alt", false, "")
 		_ = fs.Parse(os.Args[2:])
-		os.Exit(sup.Run(sup.Options{Root: *root, Prop: *prop, Tier: *tier, Seed: *seed, Bin: *bin, RaceBin: *raceBin, Workers: *workers, Replay: *replay}))
+		os.Exit(sup.Run(sup.Options{Root: *root, Prop: *prop, Tier: *tier, Seed: *seed, Bin: *bin, RaceBin: *raceBin, Workers: *workers, Replay: *replay, Alt: *alt}))
 	case "crashwriter":
 		os.Exit(crash.WriterMain(os.Args[2]))
 	case "crashreader":
